@@ -672,6 +672,67 @@ pub mod lexer {
         }
     @*/
 
+    // ---- C31 AS STATED: rendering the diagnostic of ANY compile error succeeds for ANY text --------------
+    // EXPECTED TO FAIL -- known finding (known_findings.txt; replayed on the real crate in finding_replay/):
+    // the same real function, extracted a second time WITHOUT the `no_crlf` precondition. With a "\r\n" line
+    // ending before the reported span the renderer's panic condition is reachable
+    // (compile_manifest_with_pretty_error("\"\r\n") panics in annotate-snippets).
+    #[allow(non_snake_case)]
+    pub mod crlf_KNOWN_FINDING {
+        use super::*;
+        /*@fn radix-transactions/src/manifest/diagnostic_snippets.rs :: fn create_snippet
+        @subst <<s.lines()>> => <<lines_c31(s)>> x2 why: `core::str::Lines` and the adapters `Iterator::count` / `Iterator::enumerate` have no vstd specification; lines_c31(s) is the shim for s.lines() with the assumed contracts L1/L2 (shims/str_lines_c31.rs); `.count()`, `.enumerate()` and the loop stay verbatim
+        @sig
+            requires
+                span_ok(s@, *span),
+                encode_utf8(s@).len() <= isize::MAX,
+        @entry
+            let ghost ls = lines_of(s@);
+            let ghost n = ls.len() as int;
+            let ghost ls0: int = if span.start.line_idx >= 5 { span.start.line_idx - 5 } else { 0 };
+            proof {
+                lemma_utf8_len(s@);
+                lemma_pos_bounds(s@, span.start.full_index as int);
+                lemma_pos_bounds(s@, span.end.full_index as int);
+                lemma_sum_mono_all(ls);
+                lemma_newlines_mono(s@, 0, span.start.full_index as int);
+                lemma_scan_prefix(s@, 0, 0, span.start.full_index as int, ls0);
+            }
+        @loop 1 iter it
+            invariant_except_break
+                vstd::std_specs::iter::IteratorSpec::remaining(&it.snapshot@).len() == n,
+                forall|k: int| 0 <= k < n ==> (#[trigger] vstd::std_specs::iter::IteratorSpec::remaining(&it.snapshot@)[k]).0 == k
+                    && vstd::std_specs::iter::IteratorSpec::remaining(&it.snapshot@)[k].1@ == ls[k],
+                us(skipped_chars) == sum_len(ls, if it.index@ < ls0 { it.index@ } else { ls0 }),
+                source@.len() + us(skipped_chars) == sum_len(ls, if it.index@ < ls0 { it.index@ } else if it.index@ < line_end { it.index@ } else if ls0 < line_end { line_end as int } else { ls0 }),
+            invariant
+                ls == lines_of(s@), n == ls.len(), n == lines_cnt, sum_mono(ls), 0 <= ls0 <= n, line_end <= n,
+                line_start == ls0 + 1, s@.len() + 1 < usize::MAX,
+            ensures
+                us(skipped_chars) <= sum_len(ls, ls0),
+                source@.len() + us(skipped_chars) >= sum_len(ls, line_end as int),
+        @before <<if (i + 1) < line_start>>
+            proof {
+                assert((i, line) == vstd::std_specs::iter::IteratorSpec::remaining(&it.snapshot@)[it.index@]);
+                assert(line@ == ls[i as int]);
+                lemma_scan_total(s@, 0, 0, i + 1);
+            }
+        @before <<annotation_start_index -= skipped_chars>>
+            proof {
+                let e = span.end.full_index as int;
+                if line_end as int == n {
+                    lemma_scan_cover_all(s@, 0, 0);
+                } else {
+                    lemma_newlines_mono(s@, 0, e);
+                    lemma_scan_cover_pos(s@, 0, 0, e, span.end.line_idx as int + 1);
+                    assert(sum_len(ls, span.end.line_idx as int + 1) <= sum_len(ls, line_end as int));
+                }
+                assert(annotation_end_index <= sum_len(ls, line_end as int) + 1);
+            }
+        @*/
+    }
+
+
     // ---- KNOWN FINDING (replayed on the real crate: units/c31_lexer/finding_replay/OUTPUT.txt) -------------------
     // `no_crlf(s@)` above is NOT a harmless technicality: the property quantifies over "any mix of line endings", and
     // with a "\r\n" ending the precondition of the renderer is violated. Witness on the formulas the contract of
